@@ -175,6 +175,12 @@ func (m *c08cModel) keys(v interface{}, path string, visiting []string) []string
 	return []string{path}
 }
 
+type c08RecS struct {
+	A, B, O, K, J, N, M, X *c08RecS
+}
+
+type c08RecM map[string]c08RecM
+
 // c08ContainerCases enumerates the configurations of the container-reference space.
 func c08ContainerCases() (int, func(i int) M) {
 	menu := func(self, other string) []interface{} {
@@ -182,7 +188,7 @@ func c08ContainerCases() (int, func(i int) M) {
 			"${" + self + ".x}", "${" + other + ".k}", "${" + other + ".0}"}
 	}
 	ma, mb := menu("a", "b"), menu("b", "a")
-	ovars := []M{{"k": "v"}, {"k": "${l}"}, {"k": "${l.1}", "j": "${l.1}"}}
+	ovars := []M{{"k": "v"}, {"k": "${l}"}, {"k": "${l.1}", "j": "${l.1}"}, {"k": "${a}"}}
 	radices := []int{len(ma), len(mb), len(ovars)}
 	build := func(i int) M {
 		d := mixedRadix(i, radices...)
@@ -242,6 +248,22 @@ func c08Containers() *core.Space {
 					}
 				}
 				wm, _ := want.(map[string]interface{})
+				fieldsCyclic := false
+				for _, f := range []string{"a", "b"} {
+					if v, ok := generic[f]; ok {
+						fm := &c08cModel{root: generic}
+						fm.deep(v, nil)
+						fieldsCyclic = fieldsCyclic || fm.cyclic
+					}
+				}
+				shallowObj := func(f string) bool {
+					v, ok := generic[f]
+					if !ok {
+						return false
+					}
+					_, obj := (&c08cModel{root: generic}).resolve(v, nil).(map[string]interface{})
+					return obj
+				}
 				isList := func(v interface{}) bool { _, ok := v.([]interface{}); return ok }
 				isObj := func(v interface{}) bool { _, ok := v.(map[string]interface{}); return ok }
 				// struct targets
@@ -278,7 +300,11 @@ func c08Containers() *core.Space {
 					}
 					terr := cfg.Unpack(tg.t, opts...)
 					if cyclic {
-						// (a cycle between a and b is met by every target)
+						// (a cycle that a or b runs into is met by every target; one that
+						// only the settings l and o hold is not read by these structs)
+						if !fieldsCyclic || (tg.listA && shallowObj("a")) || (tg.listB && shallowObj("b")) {
+							continue // (an object read into a slice is not evaluated)
+						}
 						if terr == nil {
 							fail("Unpack->"+tg.name, "CYCLE-NOT-REPORTED", fmt.Sprintf("model cyclic, impl unpacked %+v", reflect.ValueOf(tg.t).Elem().Interface()))
 							return
@@ -303,6 +329,15 @@ func c08Containers() *core.Space {
 						return
 					}
 				}
+				// recursive target types: only the configuration can end the recursion, so a
+				// reference to an object has to stay active while the object is unpacked
+				// (termination; the strings of l and o do not fit these types, so an error is
+				// expected in most cases and no value is compared)
+				var recS c08RecS
+				rerr := cfg.Unpack(&recS, opts...)
+				var recM c08RecM
+				merr := cfg.Unpack(&recM, opts...)
+				_, _ = rerr, merr
 				// key flattening and diffing
 				keys := cfg.FlattenedKeys(opts...)
 				wantKeys := (&c08cModel{root: generic}).keys(generic, "", nil)
